@@ -1,0 +1,61 @@
+//go:build verif
+
+package keeper
+
+// Contracts for the deductive checker in /verif (comment-only; compiled only with -tags verif).
+// C10, IBC transfer wrapper: before an IBC transfer of a coin that belongs to a registered, enabled token pair the sender's ERC20
+// tokens are converted for exactly the missing amount, through ConvertERC20 from the sender to the sender; otherwise nothing is
+// converted; a failing conversion fails the transfer before the ICS-20 keeper runs.
+// Lib specs: verif/specs/c10r/80_transfer.spec (embedded ibc-go keeper, ghost call counter ics20_transfers).
+
+/*@
+alias E20Keeper github.com/haqq-network/haqq/x/erc20/keeper.Keeper
+
+func (Keeper).Transfer
+    // the token named by the message: coin denomination, "erc20/<contract>" or the contract address
+    let tok = str_trim_prefix(old(msg.Token.Denom), "erc20/")
+    let has = old(ite(is_hex_address(str_trim_prefix(msg.Token.Denom, "erc20/")), am_has[hex_to_addr(str_trim_prefix(msg.Token.Denom, "erc20/"))], dm_has[str_trim_prefix(msg.Token.Denom, "erc20/")]))
+    let id = old(ite(is_hex_address(str_trim_prefix(msg.Token.Denom, "erc20/")), am_val[hex_to_addr(str_trim_prefix(msg.Token.Denom, "erc20/"))], dm_val[str_trim_prefix(msg.Token.Denom, "erc20/")]))
+    let P = old(tp_val)[id]
+    let snd = addr_of_bech32(old(msg.Sender))
+    let amt = old(msg.Token.Amount)
+    let bal = old(bank_bal)[acc_of_bytes(snd)][P.Denom]
+    // the conversion case: registered, enabled pair, conversion enabled globally, coin balance below the amount
+    let Q = has && P.Enabled && old(e20_enable) && bal < amt
+    requires wired: k.Keeper != nil && k.bankKeeper != nil && typeis(k.erc20Keeper, E20Keeper)
+    requires msg: msg != nil && msg.Token.Amount > 0
+    // registry invariant (RegisterCoin / RegisterERC20 / ToggleConversion keep it): index entries point to stored pairs with that
+    // denomination / contract, and the address index finds every stored pair
+    requires inv: reg_inv(tp_has, tp_val, dm_has, dm_val, am_has, am_val)
+    requires inv_addr: forall i RBytes :: tp_has[i] ==> am_has[tp_addr(tp_val[i])] && am_val[tp_addr(tp_val[i])] == i
+    modifies *msg, bank_bal, bank_supply, evm_state, tp_has, am_has, dm_has, ics20_transfers, ics20_last
+    call ConvertERC20 requires c10_needed: Q && bank_bal == old(bank_bal) && bank_supply == old(bank_supply) && evm_state == old(evm_state)
+            && ics20_transfers == old(ics20_transfers)
+    call ConvertERC20 requires c10_difference: msg != nil && msg.Amount == amt - bal && hex_to_addr(msg.ContractAddress) == tp_addr(P)
+    call ConvertERC20 requires c10_self: hex_to_addr(msg.Sender) == bytes_to_addr(snd) && acc_of_bytes(addr_of_bech32(msg.Receiver)) == acc_of_bytes(snd)
+    // at the ICS-20 transfer: same message object, denomination replaced by the pair's (unless the regular path is taken), and after a
+    // conversion that produced coins the sender holds exactly the amount to transfer
+    call Keeper.Transfer requires c10_same_msg: msg == old(msg) && msg.Token.Amount == amt && msg.Sender == old(msg.Sender) && ics20_transfers == old(ics20_transfers)
+    call Keeper.Transfer requires c10_denom: msg.Token.Denom == ite(has && P.Enabled && old(e20_enable), P.Denom, old(msg.Token.Denom))
+    call Keeper.Transfer#3 requires c10_topped_up: Q && ret(ConvertERC20, 1, 0) != nil ==> bank_bal[acc_of_bytes(snd)][P.Denom] == amt
+    call Keeper.Transfer requires c10_untouched: !Q ==> bank_bal == old(bank_bal) && bank_supply == old(bank_supply) && evm_state == old(evm_state)
+            && tp_has == old(tp_has) && am_has == old(am_has) && dm_has == old(dm_has)
+    ensures c10_no_conversion: !Q ==> evm_state == old(evm_state) && tp_has == old(tp_has) && am_has == old(am_has) && dm_has == old(dm_has)
+            && ics20_transfers == old(ics20_transfers) + 1
+    // the EVM denomination is never converted - as long as it is not registered as a pair (which RegisterCoin does not exclude: finding X2)
+    ensures c10_evm_denom: tok == evm_denom && !is_hex_address(evm_denom) && !old(dm_has[evm_denom]) ==> !Q && evm_state == old(evm_state)
+            && ics20_transfers == old(ics20_transfers) + 1
+    // (what a failed conversion left behind is discarded with the failing message: A-atomic)
+    ensures c10_conversion_first: Q ==> (ret(ConvertERC20, 1, 1) != nil && result.1 != nil && result.0 == nil && ics20_transfers == old(ics20_transfers))
+            || (ret(ConvertERC20, 1, 1) == nil && ics20_transfers == old(ics20_transfers) + 1)
+    // the ICS-20 keeper sees the caller's message object (denomination possibly replaced, amount and sender untouched) and its results
+    // are returned (the engine numbers the call sites in the order it reaches them: 1 pair disabled, 2 conversion disabled, 3 after the conversion,
+    // 4 balance suffices, 5 unregistered)
+    ensures c10_ics20_args: ics20_transfers == old(ics20_transfers) + 1 ==> ics20_last == ics20_call(msg, msg.Token.Denom, amt, old(msg.Sender))
+            && msg.Token.Amount == amt && msg.Token.Denom == ite(has && P.Enabled && old(e20_enable), P.Denom, old(msg.Token.Denom))
+    ensures c10_result_unregistered: !has ==> result.0 == ret(Keeper.Transfer, 5, 0) && result.1 == ret(Keeper.Transfer, 5, 1)
+    ensures c10_result_disabled: has && !P.Enabled ==> result.0 == ret(Keeper.Transfer, 1, 0) && result.1 == ret(Keeper.Transfer, 1, 1)
+    ensures c10_result_off: has && P.Enabled && !old(e20_enable) ==> result.0 == ret(Keeper.Transfer, 2, 0) && result.1 == ret(Keeper.Transfer, 2, 1)
+    ensures c10_result_enough: has && P.Enabled && old(e20_enable) && bal >= amt ==> result.0 == ret(Keeper.Transfer, 4, 0) && result.1 == ret(Keeper.Transfer, 4, 1)
+    ensures c10_result_converted: Q && ret(ConvertERC20, 1, 1) == nil ==> result.0 == ret(Keeper.Transfer, 3, 0) && result.1 == ret(Keeper.Transfer, 3, 1)
+@*/
